@@ -46,6 +46,16 @@ def run(ctx):
     distinct = set()
     samples = []
     n = 60 if ctx.quick() else 3000
+    # directed first: nested | and & whose direct members hold no value-dependent type, arms of different bounds
+    for dp in D.directed_nested_programs(ctx.rng):
+        wd = world_from(dp["spec"])
+        bd = progs.Built(wd, dp["defs"], utab=dp["utab"])
+        for call in dp["calls"]:
+            bd.call([dec_val(e, wd) for e in call["vals"]])
+            stats["evaluations"] += 1
+            stats["directed_nested_calls"] += 1
+            check_log(ctx, bd, dp["defs"], dict(dp, calls=[call]), stats)
+            distinct.add(hash(json.dumps([dp["defs"], call, dp["utab"]])))
     for it in range(n):
         # static programs with optional / keyword-only parameters and delegation
         prog = R.gen_program(ctx.rng)
@@ -92,7 +102,7 @@ def run(ctx):
             break
     return {"evaluations": stats["evaluations"], "distinct_nontrivial": len(distinct),
             "rule": "per round one static program (as C02: optional positionals, keyword-only typed parameters, priorities; bodies return, delegate with call_next or re-enter with recurse) x ~12 calls and one dependent program (as C10; bodies return or delegate with call_next on the same or on another value) x 14 calls; every case has at least one registered method and counts as non-trivial; distinct by content",
-            "samples": samples, "bodies_entered_and_checked": stats["bodies_entered"],
+            "samples": samples, "bodies_entered_and_checked": stats["bodies_entered"], "directed_nested_combination_calls": stats["directed_nested_calls"],
             "traces_validated_against_impl": stats["evaluations"]}
 
 
